@@ -141,7 +141,94 @@ def rand_pattern(rng, its):
     return p
 
 
+def ring_graph(n, orders, syms=None, pendant=None, pendant_first=False):
+    """ring 0..n-1 with bond i -- (i+1)%n of order orders[i]; pendant = (ring position, order, symbol)
+    adds node n.  Edge insertion order (= adjacency order) is deterministic: node i sees i+1 before i-1
+    except node 0, which sees 1 first, then n-1."""
+    g = nx.Graph()
+    for i in range(n):
+        g.add_node(i, symbol=(syms[i] if syms else "C"))
+    if pendant is not None:
+        g.add_node(n, symbol=pendant[2])
+        if pendant_first:
+            g.add_edge(pendant[0], n, bond=pendant[1])
+    for i in range(n):
+        g.add_edge(i, (i + 1) % n, bond=orders[i])
+    if pendant is not None and not pendant_first:
+        g.add_edge(pendant[0], n, bond=pendant[1])
+    return g
+
+
+def gen_ringmix(rng, ops):
+    """host = ring (3-6 atoms, mostly C) whose bonds have MIXED orders, a few pendant atoms / one chord;
+    pattern = a path walked along the ring from the anchor (optionally with one branch), so that at the
+    anchor (and at every later ring atom) two equally labelled host neighbours compete and the bond
+    orders further along decide: a matcher has to backtrack whenever the wrong neighbour comes first in
+    adjacency order (ids and adjacency orders are shuffled afterwards)."""
+    n = rng.choice([3, 4, 4, 4, 5, 6, 6])
+    while True:
+        orders = [rng.choice([1, 2]) for _ in range(n)]
+        if len(set(orders)) == 2:
+            break
+    syms = [("O" if rng.random() < 0.12 else "C") for _ in range(n)]
+    host = ring_graph(n, orders, syms)
+    nxt = n
+    for _ in range(rng.choice([0, 0, 1, 1, 2])):
+        host.add_node(nxt, symbol=rng.choice(["C", "C", "O"]))
+        host.add_edge(rng.randrange(n), nxt, bond=rng.choice([1, 2]))
+        nxt += 1
+    if n >= 5 and rng.random() < 0.2:
+        u = rng.randrange(n)
+        host.add_edge(u, (u + 2) % n, bond=rng.choice([1, 2]))
+    # walk along the ring
+    start = rng.randrange(n)
+    step = rng.choice([1, -1])
+    # long enough to reach the far side of the ring, where both ways round meet again
+    length = rng.randint(max(2, n // 2), min(4, n - 1)) if n > 3 else 2
+    walk = [(start + step * k) % n for k in range(length + 1)]
+    p = nx.Graph()
+    for i, h in enumerate(walk):
+        p.add_node(i, symbol=host.nodes[h]["symbol"])
+    for i in range(length):
+        p.add_edge(i, i + 1, bond=host.edges[walk[i], walk[i + 1]]["bond"])
+    pm = {i: h for i, h in enumerate(walk)}
+    kind = "ringmix"
+    if rng.random() < 0.3:                      # one branch onto a pendant / ring neighbour not on the walk
+        i = rng.randrange(len(walk))
+        cand = [v for v in host.neighbors(walk[i]) if v not in walk]
+        if cand:
+            v = rng.choice(cand)
+            k = len(walk)
+            p.add_node(k, symbol=host.nodes[v]["symbol"])
+            p.add_edge(i, k, bond=host.edges[walk[i], v]["bond"])
+            pm[k] = v
+            kind = "ringmix-branch"
+    if rng.random() < 0.25:                     # wildcards
+        for q in p.nodes:
+            if rng.random() < 0.3:
+                p.nodes[q]["symbol"] = "R"
+    if rng.random() < 0.25:                     # near miss: flip one pattern bond
+        u, v = rng.choice(list(p.edges))
+        p.edges[u, v]["bond"] = 3 - p.edges[u, v]["bond"]
+        kind += "-miss"
+    w, ic = rng.choice([("R", True), ("R", True), ("R", False), (None, False)])
+    op = rng.choice(ops)
+    hscheme = "contig" if op == "to_graph" else None
+    host2, hscheme, hm = gens.reid(rng, host, hscheme)
+    p2, pscheme, pmm = gens.reid(rng, p)
+    q = 0 if rng.random() < 0.7 else rng.choice(list(pm))
+    a, pa = hm[pm[q]], pmm[q]
+    if op == "to_graph":
+        a = pa = None
+    elif op == "sub":
+        pa = None
+    return {"op": op, "G": host2, "P": p2, "a": a, "pa": pa, "w": w, "ic": ic, "cmtn": [],
+            "kind": kind, "scheme": hscheme + "/" + pscheme}
+
+
 def gen_case(rng, ops, nmax=8):
+    if rng.random() < 0.2:
+        return gen_ringmix(rng, ops)
     host = rand_host(rng, nmax)
     its = rng.random() < 0.15
     if its:
@@ -266,6 +353,91 @@ def exhaustive_cases(seed, pid, hmax, pmax, hsyms, psyms, orders, start_index):
                        "cmtn": [], "kind": "exhaustive", "scheme": hs + "/" + ps}
 
 
+# ---- exhaustive small cyclic scope (quick and thorough) -----------------------------------------------
+
+def tree_patterns(nmax, syms, orders=(1, 2)):
+    """all chain / branched (acyclic connected) patterns with <= nmax nodes, one per isomorphism class"""
+    return [g for n in range(1, nmax + 1) for g in labelled_graphs(n, syms, list(orders))
+            if g.number_of_edges() == n - 1]
+
+
+def ring_scope_cases(tier, pbundle=12, hbundle=6):
+    """Exhaustive small cyclic scope.  Hosts: every ring of 3, 4, 5 atoms with EVERY assignment of bond
+    orders {1,2} to its ring bonds, rooted at the host anchor (anchor = ring atom 0 together with all 2^n
+    order assignments = all anchors of all rings up to rotation, mirror images included, so for each chiral
+    situation both adjacency orders of the anchor's two ring neighbours occur).  Patterns: chain / branched.
+    Every pattern anchor is tried (map_subgraph without a pattern anchor).  One generated case (op "multi")
+    bundles up to [hbundle] (host, anchor) pairs x up to [pbundle] patterns for one mapper.
+      A  all-C rings x patterns over {C,R} <= 3 nodes and C-only 4-node patterns (on an all-C host R and C
+         behave alike under a wildcard mapper), mapper ("R", case sensitive); the same rings x all C-only
+         patterns under the default mapper ("R", ignore_case)
+      B  3-/4-ring + one pendant C (single or double bond) on ring atom 0, EVERY host anchor,
+         x C-only patterns with 3-4 nodes, mapper ("R", case sensitive)
+      C  3-/4-rings with one O at every position x 3-node patterns over {C,R}, mapper ("R", case sensitive);
+         the 3-rings also under the default mapper and under the mapper without wildcard
+    thorough: rings up to 6 (A) / 5 (B, C) atoms, ALL patterns <= 4 nodes over {C,R} in A and C,
+    patterns over {C,R} <= 3 nodes added in B, default mapper on all of C."""
+    import itertools as it
+    full = tier == "thorough"
+    t3 = tree_patterns(3, ["C", "R"])
+    t3only = [g for g in t3 if len(g) == 3]
+    c_all = tree_patterns(4, ["C"])
+    c4 = [g for g in c_all if len(g) == 4]
+    c34 = [g for g in c_all if len(g) >= 3]
+    t4 = tree_patterns(4, ["C", "R"])
+    CS, DEF, NOW = ("R", False), ("R", True), (None, False)
+    groups = {}          # (kind, mapper, pattern-set name) -> list of (host, anchor)
+    psets = {"t3+c4": t3 + c4, "c_all": c_all, "c34": c34, "c34+t3": c34 + t3, "t3only": t3only, "t4": t4, "t3": t3}
+
+    def add(kind, mapper, pset, h, a):
+        groups.setdefault((kind, mapper, pset), []).append((h, a))
+
+    for n in ((3, 4, 5, 6) if full else (3, 4, 5)):
+        for orders in it.product([1, 2], repeat=n):
+            h = ring_graph(n, orders)
+            add("ring-A", CS, "t4" if full else "t3+c4", h, 0)
+            add("ring-A", DEF, "c_all", h, 0)
+    for n in ((3, 4, 5) if full else (3, 4)):
+        for k, orders in enumerate(it.product([1, 2], repeat=n)):
+            for po in (1, 2):
+                h = ring_graph(n, orders, pendant=(0, po, "C"), pendant_first=(k % 2 == 1))
+                for a in h.nodes:
+                    add("ring-B", CS, "c34+t3" if full else "c34", h, a)
+    for n in ((3, 4, 5) if full else (3, 4)):
+        for pos in range(n):
+            syms = ["O" if i == pos else "C" for i in range(n)]
+            for orders in it.product([1, 2], repeat=n):
+                h = ring_graph(n, orders, syms)
+                add("ring-C", CS, "t4" if full else "t3only", h, 0)
+                if n == 3 or full:
+                    add("ring-C", DEF, "t3only", h, 0)
+                if n == 3:
+                    add("ring-C", NOW, "t3only", h, 0)
+    for (kind, (w, ic), pset), hs in groups.items():
+        pats = psets[pset]
+        for hk in range(0, len(hs), hbundle):
+            for k in range(0, len(pats), pbundle):
+                yield {"op": "multi", "Hs": hs[hk:hk + hbundle], "Ps": pats[k:k + pbundle],
+                       "G": hs[hk][0], "P": pats[k], "a": hs[hk][1], "pa": None, "w": w, "ic": ic,
+                       "cmtn": [], "kind": kind, "scheme": "ring-scope"}
+
+
+def interleave(main, extra):
+    """spread the cases of [extra] evenly through [main] (so that every generated Coq file gets its share)"""
+    main, extra = list(main), list(extra)
+    if not extra:
+        yield from main
+        return
+    step = max(1, len(main) // len(extra)) if main else 1
+    e = 0
+    for i, c in enumerate(main):
+        yield c
+        if (i + 1) % step == 0 and e < len(extra):
+            yield extra[e]
+            e += 1
+    yield from extra[e:]
+
+
 # ---- corpus --------------------------------------------------------------------------------------
 
 def _c(op, gs, a, ps, pa, w="R", ic=True, cmtn=(), kind="corpus"):
@@ -282,6 +454,12 @@ def corpus_cases():
     yield _c("sub", "CCOCC", 2, "C1OC1", None, kind="corpus-D7")
     for i in range(4):
         yield _c("anchored", "C1COC1", i, "C1OC1", 1, kind="corpus-D7")
+    # backtracking over a bond-order mismatch that depends on the parent's image (cyclobutene: going
+    # round the ring the wrong way first meets the double bond); missed by a matcher that remembers a
+    # rejected (host node, pattern node) placement
+    yield _c("anchored", "C1C=CC1", 0, "CCC", 0, kind="corpus-backtrack")
+    yield _c("anchored", "C1C=CC1", 3, "CCC", 0, kind="corpus-backtrack")
+    yield _c("sub", "C1C=CC=C1", 0, "CCC=C", None, kind="corpus-backtrack")
     # the cases of test/algorithm/test_subgraph.py
     yield _c("anchored", "CCO", 2, "RO", 1)
     yield _c("anchored", "CC(=O)O", 2, "RC(=O)O", 2)
@@ -331,6 +509,22 @@ def corpus_cases():
 # implementation
 
 def run_impl(c):
+    if c["op"] == "multi":
+        mapper = PermutationMapper(wildcard=c["w"], ignore_case=c["ic"], can_map_to_nothing=list(c["cmtn"]))
+        outs, mutated = [], False
+        for h0, a in c["Hs"]:
+            row = []
+            for p0 in c["Ps"]:
+                g = gens.copy_exact(h0)
+                p = gens.copy_exact(p0)
+                try:
+                    row.append(("ok", map_subgraph(g, a, p, mapper)))
+                except KeyError as e:
+                    row.append(("KeyError", str(e)))
+                mutated = mutated or not (gens.graphs_identical(g, h0) and gens.graphs_identical(p, p0))
+            outs.append(row)
+        c["_mutated"] = mutated
+        return ("multi", outs)
     g = gens.copy_exact(c["G"])
     p = gens.copy_exact(c["P"])
     mapper = PermutationMapper(wildcard=c["w"], ignore_case=c["ic"], can_map_to_nothing=list(c["cmtn"]))
@@ -379,7 +573,14 @@ def out_type(c):
             "sub_anchor": "list (bool * list (Z * Z))", "to_graph": "bool"}[c["op"]]
 
 
+SUB_TY = "list (bool * list (Z * Z))"
+
+
 def out_term(c, out):
+    if c["op"] == "multi":
+        sub = {"op": "sub"}
+        return "(%s : list (list (result (%s))))" % (
+            ct.lst([ct.lst([out_term(sub, o) for o in row]) for row in out[1]]), SUB_TY)
     ty = out_type(c)
     if out[0] in ("KeyError", "IndexError"):
         return "(Raise %s : result (%s))" % (out[0], ty)
@@ -406,6 +607,8 @@ def out_term(c, out):
 
 
 def model_expr(c):
+    if c["op"] == "multi":
+        return "map (fun Ga => map (fun P => map_subgraph (fst Ga) P $mp (snd Ga) None) $Ps) $Gs"
     if c["op"] == "anchored":
         return "map_anchored_subgraph $G $P $mp %s %s" % (ct.z(c["a"]), ct.z(c["pa"]))
     if c["op"] == "sub":
@@ -416,6 +619,8 @@ def model_expr(c):
 
 
 def agree_expr(c):
+    if c["op"] == "multi":
+        return "list_eqb (list_eqb (result_eqb sub_out_eqb)) (%s) $out" % model_expr(c)
     eqb = {"anchored": "match_out_eqb", "sub": "sub_out_eqb", "sub_anchor": "sub_out_eqb", "to_graph": "Bool.eqb"}[c["op"]]
     return "result_eqb %s (%s) $out" % (eqb, model_expr(c))
 
@@ -442,15 +647,25 @@ WF = "wfb $G && wfb $P"      # the theorems' standing hypotheses (true of every 
 def spec3_expr(c, out):
     """C03 on the implementation's output (only for can_map_to_nothing = [], all nodes carrying symbols)"""
     e = _spec3_expr(c, out)
-    return e if e == "true" else "(%s) && (%s)" % (WF, e)
+    return e if e == "true" else "(%s) && (%s)" % ("true" if c["op"] == "multi" else WF, e)
 
 
 def spec4_expr(c, out):
     e = _spec4_expr(c, out)
-    return e if e == "true" else "(%s) && (%s)" % (WF, e)
+    return e if e == "true" else "(%s) && (%s)" % ("true" if c["op"] == "multi" else WF, e)
+
+
+def _multi_spec(c, fn):
+    """a bundle of map_subgraph calls, hosts x patterns: every (host, anchor, pattern, output) must pass"""
+    return ("forallb (fun Ga => wfb (fst Ga)) $Gs && forallb wfb $Ps && (Nat.eqb (List.length $Gs) (List.length $out)) && "
+            "forallb (fun Gr => (Nat.eqb (List.length $Ps) (List.length (snd Gr))) && "
+            "forallb (fun Po => match snd Po with Ok rs => %s | _ => false end) (combine $Ps (snd Gr))) (combine $Gs $out)"
+            % (fn % {"wic": wic(c)}))
 
 
 def _spec3_expr(c, out):
+    if c["op"] == "multi":
+        return _multi_spec(c, "c03_sub_okb %(wic)s (fst (fst Gr)) (snd (fst Gr)) (fst Po) (nodes (fst Po)) rs")
     if c["cmtn"] or not all_syms(c):
         return "true"
     if c["op"] == "anchored":
@@ -468,6 +683,8 @@ def _spec3_expr(c, out):
 def _spec4_expr(c, out):
     """C04 on the implementation's output: the full statement for can_map_to_nothing = [] (all nodes
     carrying symbols), the partial-embedding statement (C04_gen) for every anchored call"""
+    if c["op"] == "multi":      # ring-scope patterns are trees: connected
+        return _multi_spec(c, "c04_sub_okb %(wic)s true (fst (fst Gr)) (snd (fst Gr)) (fst Po) (nodes (fst Po)) rs")
     partial = None
     if c["op"] == "anchored":
         partial = "c04_partial_okb %s $G %s $P %s $out" % (wic(c), ct.z(c["a"]), ct.z(c["pa"]))
@@ -485,6 +702,10 @@ def _spec4_expr(c, out):
 
 
 def base_defs(c, out):
+    if c["op"] == "multi":
+        return {"Gs": "(%s : list (graph * Z))" % ct.lst(["(%s, %s)" % (ct.graph(h), ct.z(a)) for h, a in c["Hs"]]),
+                "Ps": "(%s : list graph)" % ct.lst([ct.graph(p) for p in c["Ps"]]),
+                "mp": mapper_term(c), "out": out_term(c, out)}
     return {"G": ct.graph(c["G"]), "P": ct.graph(c["P"]), "mp": mapper_term(c), "out": out_term(c, out)}
 
 
@@ -492,17 +713,28 @@ def base_defs(c, out):
 # bookkeeping
 
 def describe(c):
+    if c["op"] == "multi":
+        return {"op": "multi", "Hs": [[ct.graph_py(h), a] for h, a in c["Hs"]], "Ps": [ct.graph_py(p) for p in c["Ps"]], "pa": None,
+                "w": c["w"], "ic": c["ic"], "cmtn": list(c["cmtn"]), "kind": c["kind"], "scheme": c["scheme"]}
     return {"op": c["op"], "G": ct.graph_py(c["G"]), "P": ct.graph_py(c["P"]), "a": c["a"], "pa": c["pa"],
             "w": c["w"], "ic": c["ic"], "cmtn": list(c["cmtn"]), "kind": c["kind"], "scheme": c["scheme"]}
 
 
 def from_json(d):
+    if d["op"] == "multi":
+        ps = [ct.graph_from_py(p) for p in d["Ps"]]
+        hs = [(ct.graph_from_py(h), a) for h, a in d["Hs"]]
+        return {"op": "multi", "Hs": hs, "G": hs[0][0], "a": hs[0][1], "Ps": ps, "P": ps[0], "pa": None,
+                "w": d["w"], "ic": d["ic"], "cmtn": list(d["cmtn"]), "kind": d.get("kind", "replay"),
+                "scheme": d.get("scheme", "replay")}
     return {"op": d["op"], "G": ct.graph_from_py(d["G"]), "P": ct.graph_from_py(d["P"]), "a": d["a"], "pa": d["pa"],
             "w": d["w"], "ic": d["ic"], "cmtn": list(d["cmtn"]), "kind": d.get("kind", "replay"),
             "scheme": d.get("scheme", "replay")}
 
 
 def describe_out(out):
+    if out[0] == "multi":
+        return {"status": "multi", "outputs": [[describe_out(o) for o in row] for row in out[1]]}
     if out[0] != "ok":
         return {"status": out[0], "msg": out[1]}
     r = out[1]
@@ -515,10 +747,16 @@ def describe_out(out):
 
 
 def key(c):
+    if c["op"] == "multi":
+        return ("multi", tuple((ct.graph_canon(h), a) for h, a in c["Hs"]), tuple(ct.graph_canon(p) for p in c["Ps"]),
+                c["w"], c["ic"])
     return (c["op"], ct.graph_canon(c["G"]), ct.graph_canon(c["P"]), c["a"], c["pa"], c["w"], c["ic"], tuple(c["cmtn"]))
 
 
 def verdict(out):
+    if out[0] == "multi":
+        vs = set(verdict(o) for row in out[1] for o in row)
+        return "mixed" if len(vs) > 1 else vs.pop()
     if out[0] != "ok":
         return out[0]
     r = out[1]
@@ -530,10 +768,23 @@ def verdict(out):
 
 
 def nontrivial(c, out):
+    if c["op"] == "multi":
+        return True
     return out[0] == "ok" and len(c["P"]) >= 2 and len(c["G"]) >= 2
 
 
 def classes(c, out):
+    if c["op"] == "multi":
+        yield "op=multi"
+        yield "kind=" + c["kind"]
+        yield "mapper=%s/%s" % (c["w"], "ic" if c["ic"] else "cs")
+        yield "host=cyclic"
+        for row in out[1]:
+            for p, o in zip(c["Ps"], row):
+                yield "bundled:map_subgraph-calls"
+                yield "bundled:result=" + verdict(o)
+                yield "bundled:pattern_nodes=%d" % len(p)
+        return
     yield "op=" + c["op"]
     yield "result=" + verdict(out)
     yield "kind=" + c["kind"]
